@@ -199,6 +199,30 @@ type genOpts struct {
 	down    map[int]int // store -> seconds since the last heartbeat
 }
 
+// genReject: the reject-leader label property: none, one entry, or several entries – on the same key
+// with different values and on different keys (a store may match only the second or third entry)
+func genReject(r *rng.R) string {
+	switch r.Pick(70, 10, 20) {
+	case 0:
+		return "-"
+	case 1:
+		return "zone:" + pick(r, zoneVals)
+	}
+	var entries []string
+	seen := map[string]bool{}
+	for k := r.Range(2, 3); k > 0; k-- {
+		e := "zone:" + pick(r, zoneVals)
+		if r.Bool(1, 3) {
+			e = "host:" + pick(r, hostVals)
+		}
+		if !seen[e] {
+			seen[e] = true
+			entries = append(entries, e)
+		}
+	}
+	return strings.Join(entries, ",")
+}
+
 func genOptLine(r *rng.R, malformed bool) (string, genOpts) {
 	var g genOpts
 	switch r.Pick(30, 25, 25, 20) {
@@ -220,10 +244,7 @@ func genOptLine(r *rng.R, malformed bool) (string, genOpts) {
 	g.maxDown = pickInt(r, 1800, 1800, 60, 3600)
 	g.maxSnap = pickInt(r, 3, 3, 0, 1)
 	g.maxPend = pickInt(r, 16, 16, 0, 2)
-	reject := "-"
-	if r.Bool(15, 100) {
-		reject = "zone:" + pick(r, zoneVals)
-	}
+	reject := genReject(r)
 	flags := "domxl"
 	if r.Bool(1, 5) {
 		flags = ""
